@@ -5,8 +5,8 @@
     (keys() is sufficient). *)
 From Coq Require Import List NArith ZArith Bool Lia.
 Import ListNotations.
-From LV Require Import Model.Base Model.Template Model.Eval Model.Derived Model.EvalRun
-  Proofs.BaseProofs Proofs.EvalProofs Proofs.EvalInd.
+From LV Require Import Model.Base Model.Template Model.Eval Model.Derived Model.EvalRun Proofs.BaseProofs Proofs.EvalProofs Proofs.EvalInd.
+
 
 (** ** induction on JSON values (nested through lists and association lists) *)
 Section JsonInd.
@@ -334,7 +334,7 @@ Fixpoint frag (e : expr) : bool :=
       (fix go (l : list expr) : bool := match l with [] => true | x :: l' => frag x && go l' end) args &&
       (fix go (l : list expr) : bool := match l with [] => true | x :: l' => frag x && go l' end) kwargs
   | ETemplate _ _ => false
-  | EComp e effs => frag e && match effs with [] => true | _ => false end
+  | EComp e effs => frag e && (fix go (l : list expr) : bool := match l with [] => true | x :: l' => frag x && go l' end) effs
   | ELogged e => frag e
   | EPipe steps => (fix go (l : list expr) : bool := match l with [] => true | x :: l' => frag x && go l' end) steps
   | EAllOptions => false
